@@ -96,7 +96,7 @@ Definition run_entry_gen (s : sx) : sx :=
 (* opcode 31: (31 sigs self table vk_missing (call...)) with
      call  = (k (vkind of positional 0 ...) ((name vkind)...))
      table = ((row per value kind: (ann-bit...)) for type) ((...) for subtler_type)
-   -> per call: (result accepts-per-signature dom_fwd kf02 kf03 kw_documented fwd_ok sigs_wf)
+   -> per call: (result accepts-per-signature dom_fwd kf02 kf03 kw_documented fwd_ok sigs_wf kf31)
       result = (0 err) | (1) SyntaxError | (2) entry rejects | (3) body error | (4 key) No method
              | (5 key fpos fkw m) method rejects the forwarded call | (6 key fpos fkw m got) *)
 Definition tbl_get (t : sx) (f : lk) (vk ann : nat) : bool :=
@@ -144,5 +144,6 @@ Definition run_entry_calls (s : sx) : sx :=
                         | ROut (OCall key fpos fkw) => fwd_ok sigs self k K key fpos fkw
                         | _ => false
                         end);
-               of_bool (forallb sig_wf sigs)])
+               of_bool (forallb sig_wf sigs);
+               of_bool (kf31_class sigs k K)])
           (sx_list (sx_arg 4 s))).
